@@ -550,9 +550,11 @@ class ExecutionPaths(Output):
             filename = dest / self._filename(idx)
             print(f"\t\t check file: {filename}")
 
+            # the path consists of the function's copies of the main blocks: compare blocks by id
+            path_ids = set(bb.idx for bb in path)
             config.bb_border_color = (
                 lambda bb: "BLACK"
-                if bb not in path  # pylint: disable=cell-var-from-loop
+                if bb.idx not in path_ids  # pylint: disable=cell-var-from-loop
                 else "RED"
             )
             full_cfg_to_dot(self._teal, config, filename)
